@@ -727,3 +727,54 @@ pub fn threads(t: usize, rounds: usize, seed: u64) -> Vec<(usize, usize, String)
     }
     bad
 }
+
+/// C15, history of ONE object: a hub adopts `n` leaves and gives them all up again
+/// (unadopt + release), then forms a fully recorded 2-ring with a partner. A trace that
+/// starts at the former hub must cost what it costs for a fresh ring member.
+/// Returns (bytes, allocations) requested by one non-final release of a handle to it.
+pub fn former_hub_cost(n: usize) -> (usize, usize, usize) {
+    let seen: &'static [std::sync::atomic::AtomicU8] = Box::leak((0..n + 2).map(|_| std::sync::atomic::AtomicU8::new(0)).collect::<Vec<_>>().into_boxed_slice());
+    let hub = Rc::new(Big { id: 0, seen, slots: RefCell::new(Vec::new()) });
+    for i in 0..n {
+        let leaf = Rc::new(Big { id: 2 + i, seen, slots: RefCell::new(Vec::new()) });
+        link(&hub, leaf, false);
+    }
+    loop {
+        let Some(leaf) = hub.slots.borrow_mut().pop() else { break };
+        Rc::unadopt(&hub, &leaf);
+        drop(leaf);
+    }
+    let partner = Rc::new(Big { id: 1, seen, slots: RefCell::new(Vec::new()) });
+    link(&hub, Rc::clone(&partner), false);
+    link(&partner, Rc::clone(&hub), false);
+    let (b0, a0) = (crate::alloc::alloc_bytes(), crate::alloc::alloc_count());
+    drop(Rc::clone(&hub));
+    let cost = (crate::alloc::alloc_bytes() - b0, crate::alloc::alloc_count() - a0);
+    let d0 = DESTROYED.load(Relaxed);
+    drop(partner);
+    drop(hub);
+    (cost.0, cost.1, DESTROYED.load(Relaxed) - d0)
+}
+
+/// Fault: an allocation made by the library during the release of the last outside handle
+/// of a fully recorded ring (with chords) is refused. The process may die (that is what the
+/// allocation-error handler does); if the release returns, the ring must have been
+/// collected all the same - it must not be silently kept.
+pub fn alloc_fail(k: usize, chords: usize, at: isize, seed: u64) -> (usize, usize, bool) {
+    let seen: &'static [std::sync::atomic::AtomicU8] = Box::leak((0..k).map(|_| std::sync::atomic::AtomicU8::new(0)).collect::<Vec<_>>().into_boxed_slice());
+    DESTROYED.store(0, Relaxed);
+    let mut rng = crate::gen::Rng(seed);
+    let objs = ring_of(k, 0, seen);
+    for _ in 0..chords {
+        let (a, b) = (rng.below(k), rng.below(k));
+        link(&objs[a], Rc::clone(&objs[b]), false);
+    }
+    let mut it = objs.into_iter();
+    let keep = it.next().unwrap();
+    drop(it);
+    crate::alloc::fail_at(at);
+    drop(keep);
+    let fired = crate::alloc::fail_fired();
+    crate::alloc::fail_at(-1);
+    (DESTROYED.load(Relaxed), k, fired)
+}
